@@ -36,6 +36,23 @@ def gen_ops(ctx):
     # 4. gray_alpha8 -> rgba8 / rgb8 / gray8 and gray8 -> rgba8: all (g, a) pairs
     for g in range(256):
         for a in (range(256) if th else list(range(0, 256, 5)) + [1, 127, 128, 254]): ops.append("ga %d %d" % (g, a))
+    # 4b. the same conversions with DIFFERENT source / destination channel depths (8, 16, 32f): alpha must be the channel_convert
+    #     of the source alpha into the destination type, gray likewise
+    def mx(d): return {"8": 255, "16": 65535, "32f": ONE}[d]
+    def vals(d):
+        m = mx(d)
+        base = [0, m, m // 2, 1, m - 1]
+        if d == "16": base += [0x8000, 0xFF00, 0x00FF, 0x0100, 257, 32896]
+        if d == "32f": base += [f32bits(0.5), f32bits(0.2), f32bits(1 / 255.0), f32bits(254 / 255.0)]
+        return base
+    for sd in ("8", "16", "32f"):
+        for td in ("8", "16", "32f"):
+            vs = vals(sd)
+            for g in vs:
+                for a in vs: ops.append("gax %s %s %d %d" % (sd, td, g, a))
+            for _ in range(3000 if th else 400): ops.append("gax %s %s %d %d" % (sd, td, r.below(mx(sd) + 1), r.below(mx(sd) + 1)))
+            if sd == "8":
+                for a in range(256): ops.append("gax 8 %s %d %d" % (td, 200, a))
     # 5. toolbox luminance on double channels against the core weights
     for v in range(256): ops.append("lumd %d %d %d" % (v, v, v))
     for _ in range(20000 if th else 3000): ops.append("lumd %d %d %d" % (r.below(256), r.below(256), r.below(256)))
@@ -84,6 +101,7 @@ def abstract_tie(ctx, ops, impl):
             a = [int(x) for x in obs.split("|")[0].split()]; b = [int(x) for x in obs.split("|")[1].split()]
         except ValueError: continue
         if len(a) != 3 or len(b) != 3: continue
+        if any((x >> 23) & 0xFF == 0xFF for x in a): continue      # NaN / inf intermediate: a judged range failure, nothing to tie
         px = "%s %s %s" % (w[2], w[3], w[4])
         hsv.append(("rgbToHsvF FloatSpec.binary32 " + px, "(%s, %s, %s)" % tuple(vlib.f32_to_rat(x) for x in a), o))
         rt.append(("hsvRoundTripF FloatSpec.binary32 " + px, "(%d, %d, %d)" % tuple(b), o))
@@ -117,7 +135,7 @@ def run(ctx, ops=None):
             parcorr.correspond_parallel(ctx, "drv_C18", parcorr.chunks(binary, extra, 8192), label="expanded plane", compare_model=(sp in MODELLED))
             if len(ctx.failures) > n0:      # put a concrete pixel first
                 ctx.failures.insert(0, ctx.failures.pop(n0))
-        if discharged == obligations: abstract_tie(ctx, ops, impl)
+        if discharged == obligations and not ctx.failures: abstract_tie(ctx, ops, impl)      # the tie is only meaningful when the Spec holds
         distinct = len(set(ops))
         pixels = sum(65536 if o.startswith("rt ") else 1 for o in ops)
         ctx.cov["pixels_judged"] = pixels
@@ -127,7 +145,7 @@ def run(ctx, ops=None):
     return vlib.finish(ctx, "proof", obligations, discharged,
         rule="op lines: rt <space> <r> (all 65536 rgb8 pixels of plane r through the space and back; all 256 planes of hsv hsl xyz lab ycbcr601 ycbcr709 cmyka), "
              "px (one pixel, intermediate channels visible to the judge), hsv2rgb/hsl2rgb on hue-sector boundary grids, hueper (hue 0 against hue 1), "
-             "ga (gray_alpha8 / gray8 to rgba8), lumd (double luminance against the core weights); every op line is non-trivial (distinct op lines counted)",
+             "ga (gray_alpha8 / gray8 to rgba8), gax (gray_alpha / gray to rgba, rgb, gray between all nine pairs of channel depths 8/16/32f), lumd (double luminance against the core weights); every op line is non-trivial (distinct op lines counted)",
         samples=samples, distinct_nontrivial=distinct, assumptions=ASSUME, trusted_base=vlib.TRUSTED_BASE,
         extra={"pixels_judged": pixels, "judged_only_ops": ctx.cov.get("judged_only_ops", 0),
                "exhaustive_domains": ["all 2^24 rgb8 pixels per colour space (hsv, hsl, ycbcr601, ycbcr709, cmyka: model and judge recompute every pixel in Lean; xyz, lab: aggregates of the real code judged)"]},
